@@ -222,7 +222,7 @@ class Report:
         }
         ev = {"property_id": self.pid, "tier": self.tier, "seed": self.seed, "level": level, "coverage": coverage,
               "assumptions": self.assumptions, "wall_s": round(time.time() - self.t0, 2), "violations": new_violations}
-        if os.environ.get("VERIF_REPO"):          # a run against a scratch copy of the repository (seeded changes) never touches the evidence of the registered check
+        if os.environ.get("VERIF_REPO") or getattr(self, "only", None):          # a partial (--only) run or a run against a scratch copy of the repository (seeded changes) never touches the evidence of the registered check
             os.makedirs(os.path.join(ROOT, "scratch"), exist_ok=True)
             json.dump(ev, open(os.path.join(ROOT, "scratch", f"evidence_{self.pid}.json"), "w"), indent=1)
         elif getattr(self, "replay_key", None) is None:          # a replay run does not overwrite the evidence of the check
